@@ -796,6 +796,10 @@ func (E *Engine) initArgOf(pkg, gname string) (string, string) {
 	}
 	g := sp.Var(gname)
 	if g == nil {
+		// a package-level string constant: its value
+		if k, ok := sp.Pkg.Scope().Lookup(gname).(*types.Const); ok && k.Val().Kind() == constant.String {
+			return constant.StringVal(k.Val()), ""
+		}
 		return "", "no such variable"
 	}
 	var val ssa.Value
